@@ -722,7 +722,9 @@ Section invariant.
     intros a [e en] _ Ha. destruct (parent_changed last en) as [p|]; [|exact Ha].
     destruct (t_e2u a !! e) as [u|] eqn:E1; [|exact Ha].
     destruct (t_e2u a !! p) as [pu|] eqn:E2; [|exact Ha].
-    apply Inv_broadcast; [exact Ha|]. right.
+    cbv zeta. assert (Ha' : Inv (a <| t_ptok ::= delete u |>)) by (peel_irr; exact Ha).
+    destruct (bool_decide (t_ptok a !! u = Some pu)); [exact Ha'|].
+    apply Inv_broadcast; [exact Ha'|]. right.
     split; [eapply (i_e2u a Ha); eassumption|eapply (i_e2u a Ha); eassumption].
   Qed.
 
@@ -734,7 +736,9 @@ Section invariant.
     destruct (p_ents a !! p) as [pen|] eqn:E2; [|exact Ha].
     destruct (en_sync pen) as [pu|] eqn:E3; [|exact Ha].
     destruct (en_children pen); [exact Ha|].
-    apply Inv_send_up; [exact Ha|]. right. split.
+    cbv zeta. assert (Ha' : Inv (a <| t_ptok ::= delete u |>)) by (peel_irr; exact Ha).
+    destruct (bool_decide (t_ptok a !! u = Some pu)); [exact Ha'|].
+    apply Inv_send_up; [exact Ha'|]. right. split.
     - apply In_map_to_list in Hin. destruct (i_ents pr HI _ _ Hin) as (Hs & _). apply Hs. exact E1.
     - destruct (i_ents a Ha _ _ E2) as (Hs & _). apply Hs. exact E3.
   Qed.
@@ -801,7 +805,7 @@ Section invariant.
   Qed.
 
   Lemma Inv_request_asset pr c a owner : Inv pr -> Inv (request_asset pr c a owner).
-  Proof. intros HI. unfold request_asset. dm; [exact HI|irr]. Qed.
+  Proof. intros HI. unfold request_asset. irr. Qed.
 
   Lemma Inv_server_received pr k from m : keyOK k -> Inv pr -> inb m -> Inv (server_received pr k from m).
   Proof.
